@@ -19,7 +19,7 @@ table = ["Every change below was written by a sub-agent that saw only the text o
          "worktree, compiles, keeps the pinned suite green (40 unit + 82 doc tests) and comes with a",
          "demonstration that fails with it and passes without it (all re-confirmed with",
          "`tools/confirm_seed.sh`). 'caught by' lists every check whose **quick** tier reports a VIOLATION",
-         "with the change applied to /repo (`tools/run_seeded.sh`); nothing is ever committed to /repo.",
+         "with the change applied (`tools/run_seeded.sh` on /repo, undone straight afterwards, or `tools/run_seeded_scratch.sh` on a scratch copy", "of /repo with the committed harness built against it); nothing is ever committed to /repo. meta.json keeps the history (first pass / after strengthening).",
          "",
          "| seed | breaks | needs, in order to manifest | target check catches it | caught by (quick) |",
          "|------|--------|------------------------------|-------------------------|-------------------|"] + rows
